@@ -48,17 +48,21 @@ func (k Keeper) PerformDepositOrWithdraw(ctx sdk.Context, params *DepositWithdra
 	// don't update staker info for exo-native-token
 	// TODO: do we need additional process for exo-native-token ?
 	if assetID != assetstypes.ExocoreAssetID {
+		// the two updates are applied in a cache context, so that a failure of the second
+		// one doesn't leave the staker's asset state changed by a failed operation.
+		cc, writeFunc := ctx.CacheContext()
 		// update asset state of the specified staker
-		err := k.UpdateStakerAssetState(ctx, stakerID, assetID, changeAmount)
+		err := k.UpdateStakerAssetState(cc, stakerID, assetID, changeAmount)
 		if err != nil {
 			return errorsmod.Wrapf(err, "stakerID:%s assetID:%s", stakerID, assetID)
 		}
 
 		// update total amount of the deposited asset
-		err = k.UpdateStakingAssetTotalAmount(ctx, assetID, actualOpAmount)
+		err = k.UpdateStakingAssetTotalAmount(cc, assetID, actualOpAmount)
 		if err != nil {
 			return errorsmod.Wrapf(err, "assetID:%s", assetID)
 		}
+		writeFunc()
 	}
 	return nil
 }
